@@ -1253,7 +1253,14 @@ fn id_choice() -> impl Strategy<Value = IdChoice> {
 }
 
 pub fn name_strategy() -> impl Strategy<Value = String> {
-    prop_oneof![4 => "[a-z]{1,8}", 1 => "[ -~]{1,16}", 1 => "\\PC{1,5}"]
+    // a small pool makes several folders share a name (names are not unique), incl. the names
+    // of the built-in folders
+    prop_oneof![
+        4 => "[a-z]{1,8}",
+        1 => "[ -~]{1,16}",
+        1 => "\\PC{1,5}",
+        2 => prop_oneof![Just("Work".to_string()), Just("Personal".to_string()), Just("Documents".to_string()), Just("Archive".to_string())],
+    ]
 }
 
 #[derive(Clone, Copy, Debug, PartialEq, Eq)]
